@@ -662,7 +662,7 @@ def replay_string(text, got_expr, binding):
 
 
 def leaves(full):
-    ints = (1, 2, 3, 7) if full else (2, 3)
+    ints = (1, 2, 3, 7, -3) if full else (2, 3, -3)
     return [("sym", s) for s in SYMS] + [("int", i) for i in ints]
 
 
@@ -768,7 +768,7 @@ def run(chk, tier):
     )
     chk.validation.append(f"sympy->z3 and reference semantics vs SymbolicDim.evaluate: {validate_translation(ir)} concrete comparisons")
     ntrees = len(trees_for(tier))
-    chk.bounds = dict(trees=f"{ntrees} expression trees: all of depth 1 over leaves {{N,M,1,2,3,7}}, depth 2 with one nested operand" + (" (inner op in + - // % /)" if tier == "quick" else " (all inner ops) plus two-sided nesting on a grid"),
+    chk.bounds = dict(trees=f"{ntrees} expression trees: all of depth 1 over leaves {{N,M,1,2,3,7,-3}}, depth 2 with one nested operand" + (" (inner op in + - // % /)" if tier == "quick" else " (all inner ops) plus two-sided nesting on a grid"),
                       bindings="all integers >= 1 (unbounded)", partial_bindings="N in {1,2,5}, M unbounded",
                       strings=f"all strings of <= {5 if tier == 'quick' else 6} tokens over {TOKENS} that Python parses")
     chk.not_decided += ["expressions deeper than the bound", "sqrt and non-integer powers", "symbol names other than identifiers"]
